@@ -260,6 +260,10 @@ one_call (int ci)
             /* caller's pair must stay sound: NULL or a live block */
             if ((ra_data && !vh_ledger_find (ra_data)) || vh_bad_free)
               why = "crypt_ra freed or lost the caller's block";
+            /* a block the caller handed in must still be reachable through *data (or have been replaced by realloc) */
+            for (int i = 0; i < vh_nledger && !why; i++)
+              if (vh_ledger[i].live && vh_ledger[i].kind == 'm' && vh_ledger[i].p != ra_data)
+                why = "a heap block is live but no longer reachable through *data";
             if (ra_data && ra_size >= (int) sizeof (struct crypt_data) && vh_ledger_find (ra_data) && vh_ledger_find (ra_data)->n < (size_t) ra_size)
               why = "*size exceeds the real block after a failed allocation";
           }
